@@ -129,13 +129,122 @@ def host_offset(P, D, s):
     return None
 
 
-PATTERNS = [host_offset]
+def _strip_refs(t):
+    t = norm(t)
+    for _ in range(12):
+        if t[0] in ("ref", "deref"):
+            t = norm(t[1])
+        elif t[0] == "call" and len(t[2]) == 1 and str(t[1]).rsplit("::", 1)[-1] in ("deref", "deref_mut", "as_slice", "as_ref", "borrow", "as_mut_slice"):
+            t = norm(t[2][0])
+        else:
+            break
+    return t
+
+
+def _enumerated_collection(P, body, call_term, T=None):
+    """for `<Enumerate<I> as Iterator>::next(&mut it)`: the collection `it` walks (term), following the definition of `it` back
+    through into_iter / enumerate / iter / deref"""
+    T = T or terms(P, body)
+    bb = call_term[3]
+    tm = body.blocks[bb]["term"]
+    if tm is None or tm.get("k") != "call" or not tm["args"]:
+        return None
+    bp = borrowed_place(T, tm["args"][0], bb, len(body.blocks[bb]["stmts"]))
+    if bp is None or len(bp) != 1:
+        return None
+    cur = bp[0]
+    for _ in range(8):
+        defs = [(b2, t2) for b2, t2 in body.calls() if tuple(t2["dest"]) == (cur,)]
+        if not defs:
+            moves = [st for _, _, st in body.stmts() if tuple(st["p"]) == (cur,) and st.get("rv") and st["rv"]["k"] == "use" and op_place(st["rv"]["op"])]
+            if len(moves) == 1 and len(op_place(moves[0]["rv"]["op"])) == 1:
+                cur = op_place(moves[0]["rv"]["op"])[0]
+                continue
+            return None
+        if len(defs) != 1:
+            return None
+        b2, t2 = defs[0]
+        last = (callee_name(t2) or "").rsplit("::", 1)[-1]
+        if last in ("into_iter", "enumerate", "by_ref") and t2["args"]:
+            pl = op_place(t2["args"][0])
+            if pl is None or len(pl) != 1:
+                return None
+            cur = pl[0]
+            continue
+        if last in ("iter", "iter_mut") and t2["args"]:
+            return _strip_refs(T.call_args(b2)[0])
+        return None
+    return None
+
+
+def index_from_own_enumeration(P, D, s, prop=None):
+    """v[i] where every value i can take was handed out by `v.iter().enumerate()` (possibly kept in an Option and unpacked later):
+    such an index is below v.len() as long as v is the same vector, which it is under one read guard"""
+    if s.kind != "index" or len(s.ops) != 2:
+        return None
+    body = s.body
+    pr = D.prover(body)
+    n = len(body.blocks[s.bb]["stmts"])
+    base = _strip_refs(pr.T.operand(s.ops[0], s.bb, n))
+    idx = norm(pr.T.operand(s.ops[1], s.bb, n))
+    leaves, todo = [], [idx]
+    while todo:
+        x = norm(todo.pop())
+        if x[0] == "phi":
+            todo.extend(x[1])
+        elif x[0] == "cast":
+            todo.append(x[3])
+        elif x[0] == "payload" and x[1] == "Some" and norm(x[2])[0] == "agg" and norm(x[2])[2] == "None":
+            continue                      # the Some payload of a None: not a value
+        elif x[0] == "payload" and x[1] == "Some" and norm(x[2])[0] in ("phi", "agg") and norm(x[2])[0] == "phi":
+            todo.extend(("payload", "Some", y) for y in norm(x[2])[1])
+        elif x[0] == "payload" and x[1] == "Some" and norm(x[2])[0] == "agg" and norm(x[2])[2] == "Some":
+            todo.append(norm(x[2])[3][0][1])
+        else:
+            leaves.append(x)
+    if not leaves:
+        return None
+    for x in leaves:
+        if not (x[0] == "field" and x[2] == "0" and norm(x[1])[0] == "payload" and norm(norm(x[1])[2])[0] == "call" and
+                "Enumerate" in str(norm(norm(x[1])[2])[1]) and str(norm(norm(x[1])[2])[1]).endswith("::next")):
+            return None
+        coll = _enumerated_collection(P, body, norm(norm(x[1])[2]), pr.T)
+        if coll is None or oblig.canon(coll) != oblig.canon(base):
+            return None
+    return {"class": "loop", "requires": (), "pattern": "index-from-own-enumeration",
+            "why": "the index was handed out by iter().enumerate() over the same collection (%s), read under the same guard: it is below its length" % show(base)[:60]}
+
+
+def forward_route_first_server(P, D, s, prop=None):
+    """route.dest[0] in the Forward arm: the loader builds a forward route only with a non-empty server list (C19.V3)"""
+    if s.kind != "index" or len(s.ops) != 2:
+        return None
+    body = s.body
+    pr = D.prover(body)
+    n = len(body.blocks[s.bb]["stmts"])
+    base = _strip_refs(pr.T.operand(s.ops[0], s.bb, n))
+    idx = norm(pr.T.operand(s.ops[1], s.bb, n))
+    if not is_const(idx, 0):
+        return None
+    if not (base[0] == "payload" and base[1] == "Forward" and norm(base[2])[0] == "field" and norm(base[2])[2] == "dest"):
+        return None
+    ty = pr.ranger.typer.of(oblig.canon(norm(norm(base[2])[1]))) or ""
+    if ty and not oblig._strip_ref(ty).endswith("dns::config::Route"):
+        return None            # (Handler::Forward is the only `Forward` variant with a `dest` field in front of it)
+    if prop == "C05":
+        return {"class": "config", "requires": (), "pattern": "forward-route-first-server",
+                "why": "dest[0] of a forward route: the server list comes from the configuration"}
+    return {"class": "internal", "requires": ("V3",), "pattern": "forward-route-first-server",
+            "why": "dest[0] of a forward route: the loader builds a forward route only with a non-empty server list"}
+
+
+PATTERNS = [host_offset, index_from_own_enumeration, forward_route_first_server]
 
 
 def match(P, D, s, prop):
     for p in PATTERNS:
         try:
-            e = p(P, D, s)
+            e = p(P, D, s, prop) if p is not host_offset else p(P, D, s)
         except Exception:
             e = None
         if e is not None:
